@@ -17,8 +17,10 @@ package verifsim
 import (
 	"fmt"
 	"math/big"
+	"os"
 	"runtime"
 	"sort"
+	"strconv"
 	"strings"
 	"sync/atomic"
 	"testing"
@@ -204,8 +206,7 @@ func c14Stall() time.Duration {
 }
 
 func envIntC14(name string, def int) int {
-	var v int
-	if _, err := fmt.Sscanf(getenvC14(name), "%d", &v); err == nil && v > 0 {
+	if v, err := strconv.Atoi(os.Getenv(name)); err == nil && v > 0 {
 		return v
 	}
 	return def
@@ -221,8 +222,6 @@ type c14Op struct {
 }
 
 type c14Seq struct {
-	t    *testing.T
-	rep  *verifutil.Rng
 	w    *World
 	p, q *Replica
 	pool *mempool.TxPool
@@ -234,7 +233,6 @@ type c14Seq struct {
 
 	syncing   bool
 	present   map[common.Hash]*types.Transaction
-	known     map[common.Hash]*types.Transaction
 	deferred  map[common.Hash]bool
 	removedEv []*types.Transaction
 	senders   []*Actor
@@ -292,9 +290,7 @@ func (s *c14Seq) snapshot() map[common.Hash]*types.Transaction {
 	return m
 }
 
-func (s *c14Seq) remember(tx *types.Transaction) {
-	s.known[tx.Hash()] = tx
-}
+func (s *c14Seq) remember(tx *types.Transaction) {}
 
 // ---- generators
 
@@ -354,7 +350,7 @@ func (s *c14Seq) genTx() (*types.Transaction, string) {
 	if period != state.NonePeriod {
 		wCer = 40
 	}
-	switch s.r.Pick(56, 14, wCer, 8) {
+	switch s.r.Pick(56, 14, wCer, 10) {
 	case 0: // plain transfer of a contended sender, any nonce / epoch relation
 		from := s.senders[s.r.Intn(len(s.senders))]
 		n, nk := s.pickNonce(from)
@@ -675,10 +671,22 @@ func (s *c14Seq) opOrderProbe() *c14Op {
 		d = append(d, fmt.Sprintf("%s->%s", s.txStr(tx), c14ErrClass(err)))
 	}
 	s.logf("orderprobe sender=%s base=%d arrival=%v", from.Name, base, d)
+	var queued []*types.Transaction
+	for _, tx := range op.accepted {
+		if _, pend := s.pool.VerifQueueOf(tx); pend {
+			queued = append(queued, tx)
+		}
+	}
 	// one ResetTo(head) through the official path
 	s.p.Chain.StartSync()
 	s.p.Chain.StopSync()
 	op.reset = s.p.Chain.GetBlock(s.p.Head().Hash())
+	for _, tx := range queued {
+		if ex, _ := s.pool.VerifQueueOf(tx); ex {
+			s.out.Count("promotions", 1)
+			s.segPromo = true
+		}
+	}
 	run := 0
 	for accepted[base+uint32(run)+1] {
 		run++
@@ -888,12 +896,6 @@ func (s *c14Seq) check(op *c14Op, before map[common.Hash]*types.Transaction, que
 	}
 	s.out.Max("max_pool_size", len(after))
 
-	// forget what can never come back
-	for h, tx := range s.known {
-		if _, ok := after[h]; !ok && !s.deferred[h] && tx.Epoch < st.Epoch() {
-			delete(s.known, h)
-		}
-	}
 	s.present = after
 }
 
@@ -949,7 +951,7 @@ func (s *c14Seq) step() {
 	before := s.present
 	var op *c14Op
 	var queues map[common.Hash]bool
-	sel := s.r.Pick(52, 9, 4, 22, 3, 5, 5)
+	sel := s.r.Pick(52, 9, 4, 22, 3, 7, 5)
 	if sel == 3 || sel == 5 || sel == 6 {
 		queues = s.pendingQueueSnapshot()
 	}
@@ -1026,10 +1028,11 @@ func c14RunSeq(rep *verifutil.Report, t *testing.T, sc int, nOps int, progress *
 	w := NewWorld(o)
 	defer w.Cleanup()
 	if err := w.Prologue(); err != nil {
-		t.Fatalf("C14: %v", err)
+		rep.Inconcl("C14 sequential scenario %d: harness set-up failed: %v", sc, err)
+		return
 	}
-	s := &c14Seq{t: t, w: w, p: w.Replicas[1], q: w.Replicas[2], r: r, out: rep, sc: sc, seed: seed, mp: mp,
-		present: map[common.Hash]*types.Transaction{}, known: map[common.Hash]*types.Transaction{}, deferred: map[common.Hash]bool{}, progress: progress}
+	s := &c14Seq{w: w, p: w.Replicas[1], q: w.Replicas[2], r: r, out: rep, sc: sc, seed: seed, mp: mp,
+		present: map[common.Hash]*types.Transaction{}, deferred: map[common.Hash]bool{}, progress: progress}
 	s.pool = s.p.TxPool
 	s.pool.VerifSetStatsCollector(&c14Collector{StatsCollector: collector.NewStatsCollector(), onRemove: func(tx *types.Transaction) { s.removedEv = append(s.removedEv, tx) }})
 	s.senders = append(s.senders, w.Accounts[:4]...)
@@ -1051,8 +1054,8 @@ func TestVerifC14Seq(t *testing.T) {
 	}
 	rep := verifutil.NewReport()
 	defer rep.Write()
-	nScen := verifutil.Scale(2, 10)
-	nOps := verifutil.Scale(450, 900)
+	nScen := verifutil.Scale(6, 30)
+	nOps := verifutil.Scale(500, 900)
 	for sc := 0; sc < nScen; sc++ {
 		var progress int64
 		run := func() { c14RunSeq(rep, t, sc, nOps, &progress) }
